@@ -36,7 +36,48 @@ const (
 
 var wfiles = []string{fP, fQ, fR, fN, fU}
 
-const nFiles = 5
+// files of the "paths" layout (lockable patterns with directory components, files at three directory levels)
+const (
+	fX  = "x.dat"             // root level, plain; same base name as assets/x.dat; changed by side
+	fAQ = "assets/q.dat"      // one level down, plain; NOT changed by side (the file the edit / commit / path-checkout operations work on)
+	fAX = "assets/x.dat"      // one level down, plain; changed by side
+	fDR = "assets/deep/r.dat" // two levels down, plain; changed by side
+	fAT = "assets/t.txt"      // never lockable; changed by side
+)
+
+const nFiles = 6 // capacity of the per-file arrays (largest layout)
+
+// layout = the set of working-tree files a scenario observes (write bit, existence, content are part of the state key).
+type layout struct {
+	Name     string
+	Files    []string
+	FullScan []string // files a full scan (merge / path checkout) is obliged to recompute; nil: every lockable file of the layout
+}
+
+var (
+	layClassic = &layout{Name: "classic", Files: wfiles, FullScan: []string{fP, fQ, fN}}
+	layPaths   = &layout{Name: "paths", Files: []string{fP, fX, fAQ, fAX, fDR, fAT}}
+)
+
+func (l *layout) idx(f string) int {
+	for i, n := range l.Files {
+		if n == f {
+			return i
+		}
+	}
+	return -1
+}
+
+// level: directory level of a path (fingerprints of the paths layout name it).
+func level(f string) string {
+	switch strings.Count(f, "/") {
+	case 0:
+		return "root"
+	case 1:
+		return "subdir"
+	}
+	return "deep"
+}
 var users = []string{"u1", "u2"}
 
 func lockable(f string) bool { return f == fP || f == fQ || f == fN || f == fU }
@@ -123,6 +164,7 @@ type world struct {
 	hostport string
 	cur      map[string]*ent
 	byRef    bool // the scenario runs against a server that scopes locks by ref
+	lay      *layout
 
 	mu        sync.Mutex
 	next      int
@@ -140,7 +182,7 @@ const (
 var snapDirs = []string{"remote.git", "u1", "u2"}
 
 func newWorld(root, home, binDir string) *world {
-	w := &world{root: root, cur: map[string]*ent{}, seenKind: map[string]int{}}
+	w := &world{root: root, cur: map[string]*ent{}, seenKind: map[string]int{}, lay: layClassic}
 	os.MkdirAll(filepath.Join(root, "tmp"), 0755)
 	w.gx = &gitx.World{Root: root, Home: home, BinDir: binDir, Extra: []string{"TMPDIR=" + filepath.Join(root, "tmp"), "GIT_CEILING_DIRECTORIES=" + root}}
 	w.srv = fakelfs.New()
@@ -456,6 +498,7 @@ type userObs struct {
 }
 
 type obs struct {
+	Files  []string // the layout's file names (index = position in the per-file arrays)
 	Table  []lockRec
 	U      [2]userObs
 	Remote []string
@@ -537,12 +580,12 @@ func (w *world) readCache(u int) (ents []cacheEnt, idkeys []string, problem stri
 }
 
 func (w *world) observe() *obs {
-	o := &obs{Table: w.table()}
+	o := &obs{Table: w.table(), Files: w.lay.Files}
 	for u := range users {
 		uo := &o.U[u]
 		dir := w.clone(u)
 		uo.Cache, uo.IDKeys, uo.CacheOK = w.readCache(u)
-		for i, f := range wfiles {
+		for i, f := range w.lay.Files {
 			p := filepath.Join(dir, f)
 			if st, err := os.Lstat(p); err == nil {
 				uo.Exists[i] = true
@@ -740,7 +783,7 @@ func (o *obs) describe() map[string]interface{} {
 			c = append(c, fmt.Sprintf("%s owner=%s id=%s", e.Path, e.Owner, e.ID))
 		}
 		wb := map[string]bool{}
-		for i, f := range wfiles {
+		for i, f := range o.Files {
 			if uo.Exists[i] {
 				wb[f] = uo.W[i]
 			}
